@@ -179,7 +179,7 @@ class Model:
         return v
 
     def _req(self, v, user, service, method, variant, app):
-        v.site = method
+        v.site = method if method != "publickey" else "publickey/" + variant.split("/")[1]
         if self.authed:
             # RFC 4252 5.1: requests after SUCCESS are silently ignored.  Stay permissive: a grant is
             # "permitted" whenever the same request would have been a legitimate success on its own.
